@@ -619,8 +619,8 @@ func goRoundTrip(c *rig.Ctx, root doltdb.RootValue, label string, st *c37stats) 
 // ---- stage A: faithful storage ----
 
 func c37faithful(c *rig.Ctx, box *srvBox, st *c37stats) {
-	ndb := c.Pick(10, 150)
-	perDB := c.Pick(12, 20)
+	ndb := c.Pick(8, 150)
+	perDB := c.Pick(10, 20)
 	type live struct {
 		db    string
 		specs []*tableSpec
@@ -805,7 +805,7 @@ type tagView struct {
 }
 
 func c37determinism(c *rig.Ctx, box *srvBox, st *c37stats) {
-	n := c.Pick(40, 800)
+	n := c.Pick(24, 800)
 	for i := 0; i < n && c.Violations() < 10; i++ {
 		r := c.SubRand("c37/tags", i)
 		db := fmt.Sprintf("c37b_%d", i)
@@ -967,8 +967,12 @@ func c37(c *rig.Ctx) {
 		"DeserializeSchema and compared structurally. stage B: CREATE TABLE + 1-6 ALTERs (add/drop/rename/modify column, add index/" +
 		"check, rename table) with a commit at a random position, replayed on 2-3 branches created before the DDL and on a dolt_clone; " +
 		"column tags (Go API), dolt_hashof_table and step outcomes must be identical and dolt_merge of the branches must be conflict-" +
-		"free. Distinct = distinct CREATE statement / distinct script")
+		"free. stage C: the same final CREATE TABLE (+ ALTER TABLE ADD COLUMN) reached fresh, after a committed DROP of an " +
+		"earlier shape, after DROP + CREATE in one working set, and inside one BEGIN..COMMIT (old = prefix + dropped columns, final = " +
+		"prefix + new columns of random kinds): the tags of the NEW columns and of the added column must equal the fresh route's, and " +
+		"merging the fresh branch with each route must work. Distinct = distinct CREATE statement / distinct script / distinct shape pair")
 	c.Assume("column tags are not visible in SQL in this version (no dolt_column_tags table): they are read through doltdb.Table.GetSchema")
+	c.Assume("stage C: surviving columns may legitimately re-use their HEAD tags (only counted); a new column whose fresh tag is occupied by a dropped HEAD column is skipped; a new column placed BEFORE surviving columns is a diagnostic, not asserted")
 	c.Assume("a specification the server refuses (e.g. key too long) is not a case; refusals are counted")
 	box := startBox(c, "c37")
 	defer func() { box.close() }()
@@ -976,6 +980,11 @@ func c37(c *rig.Ctx) {
 	c37faithful(c, box, st)
 	if c.Violations() < 10 {
 		c37determinism(c, box, st)
+	}
+	rs := &c37routeStats{}
+	if c.Violations() < 10 {
+		c37routes(c, box, rs)
+		c.Require(rs.newColsCompared > 0 && rs.alterColsCompared > 0 && rs.merges > 0, "history-route stage compared no new-column tags / ran no merge")
 	}
 	c.Count("c37.tables_created", st.tables)
 	c.Count("c37.show_create_vs_spec", st.showChecks)
